@@ -7,6 +7,8 @@
     dyncall-end <n>                                -> ok | table-mismatch   (completeness of that list)
     rmw-split <var> <func>                         -> ok | table-mismatch   (check-then-act split; committed list is empty)
     rmw-split-end <n>                              -> ok | table-mismatch
+    lock-leak <func> <lock> / lock-leak-end <n>    -> ok | table-mismatch   (a return path that keeps a lock)
+    lock-order <A> <B> / lock-order-end <n>        -> ok | table-mismatch   (B taken while A may be held)
     sign <cacheHash> <cacheSig> <h>                -> ret <r> cache <hash> <sig>       (sequential SignBlock)
     sched <cacheHash> <cacheSig> <h0> <h1> <bits>  -> ret <r0|-> <r1|-> cache <hash> <sig>  (two unsynchronised calls, one merge)
 -/
@@ -52,6 +54,12 @@ def step (s : St) (w : List String) : St × String :=
   | ["rmw-split", v, f] => (s, if rmwSplits.contains (v, f) then "ok" else "table-mismatch")
   | ["rmw-split-end", n] =>
     (s, if n.toNat? == some rmwSplits.length then "ok" else s!"table-mismatch expected={rmwSplits.length}")
+  | ["lock-leak", f, l] => (s, if lockLeaks.contains (f, l) then "ok" else "table-mismatch")
+  | ["lock-leak-end", n] =>
+    (s, if n.toNat? == some lockLeaks.length then "ok" else s!"table-mismatch expected={lockLeaks.length}")
+  | ["lock-order", a, b] => (s, if lockOrder.contains (a, b) then "ok" else "table-mismatch")
+  | ["lock-order-end", n] =>
+    (s, if n.toNat? == some lockOrder.length then "ok" else s!"table-mismatch expected={lockOrder.length}")
   | ["access-end"] =>
     match s.remaining with
     | [] => (s, "ok")
